@@ -1165,7 +1165,15 @@ class LayoutSwapper(LayoutManager):
             # If the distribution is the same then the communicators should
             # also be the same
             if (nDim1 == nDim2):
-                return all([c in handler1.communicators for c in handler2.communicators])
+                # The same dimension must also be distributed over each shared
+                # communicator, otherwise the data is not where a transpose expects it
+                l1 = handler1.getLayout(layout1)
+                l2 = handler2.getLayout(layout2)
+                comms1 = list(handler1.communicators)
+                return all([c in comms1 and
+                            (c.Get_size() == 1 or
+                             l1.dims_order[comms1.index(c)] == l2.dims_order[i])
+                            for i, c in enumerate(handler2.communicators)])
 
             # Ensure that 2 is the larger handler to facilitate steps
             if (nDim1 > nDim2):
